@@ -153,10 +153,10 @@ Proof.
   assert (TB : truthy (bymonth rl) = true).
   { rewrite EBM. cbn [truthy]. pose proof (sort_set_nonempty lm) as SN.
     destruct lm; [contradiction|]. cbn [nonempty] in SN. destruct (sort_set (z :: lm)); [discriminate SN|reflexivity]. }
+  assert (AM : all_opt (r_bymonth r) (between 1 12) = true) by assumption.
   assert (RM : forall mo, In mo (sort_set lm) -> 1 <= mo <= 12).
-  { intros mo Hmo. apply In_sort_set' in Hmo. rewrite Hbm in *.
-    match goal with H : all_opt (Some lm) (between 1 12) = true |- _ => cbn [all_opt] in H;
-      rewrite forallb_forall in H; specialize (H mo Hmo); unfold between in H end. lia. }
+  { intros mo Hmo. apply (proj1 (In_sort_set' mo lm)) in Hmo. rewrite Hbm in AM. cbn [all_opt] in AM.
+    rewrite forallb_forall in AM. specialize (AM mo Hmo). unfold between in AM. lia. }
   assert (WD : forallb (fun wn : Z * Z => between 0 6 (fst wn)) l = true).
   { unfold eff_byweekday in EL. destruct (r_byweekday r) as [l0|].
     - injection EL as <-. assumption.
